@@ -284,6 +284,12 @@ func rewriteFile(in, out, dir string, hookDirs, knobDirs map[string]string) erro
 				list[i] = rewriteGo(x)
 				needSimrt = true
 				st.gos++
+			case *ast.SendStmt:
+				// 8. `ch <- v` -> simrt.Send(ch, v) (a send that is the
+				// communication of a select clause is not in a statement list)
+				list[i] = &ast.ExprStmt{X: &ast.CallExpr{Fun: sel("simrt", "Send"), Args: []ast.Expr{x.Chan, x.Value}}}
+				needSimrt = true
+				st.chanOps++
 			case *ast.SelectStmt:
 				if sw := rewriteSelect(x); sw != nil {
 					list[i] = sw
